@@ -252,12 +252,15 @@ structure G01 where
   sizes : List (Nat × Nat) := []
 deriving Repr, Inhabited
 
+/-- An install counts as verified when the update reports it AND the file it put in place has the SHA-256 the
+    response advertised: an update that reports 'installed' for a file that does not hash to the advertised
+    value establishes nothing, and handing that file out later is a violation. -/
 def G01.next (g : G01) (op : Op) (post : View) : G01 :=
   { cfg := trackCfg g.cfg op,
     sizes := match installedBy op post with
-      | some n => (match post.fileOf n with
-        | some b => (n, b.length) :: g.sizes
-        | none => g.sizes)
+      | some n => (match post.fileOf n, op.offer with
+        | some b, some o => if checkHash b o.hash then (n, b.length) :: g.sizes else g.sizes
+        | _, _ => g.sizes)
       | none => g.sizes }
 
 /-- What must hold of a patch `n` that is handed out, given the post-state. -/
@@ -489,6 +492,9 @@ def mon14 : Monitor G14 where
         (post.sj = pre.sj ∧ post.pj = pre.pj ∧ post.pdir = pre.pdir ∧ post.arts = pre.arts ∧ post.junk = pre.junk,
           "C14: a repeated init changed the storage directory"),
         (post.outside = 0, "C14: a repeated init changed the disk outside the storage directory in use (the directories it was given)") ]
+    -- the configuration in use stays that of the first successful init: the one setting a query reads back directly
+    | .auto, some c =>
+      [ (post.ret = .bool c.autoUpdate, "C14: should_auto_update does not answer with the setting of the first successful init") ]
     | _, _ => []
 
 /-! #### C20: requests identify exactly this app, release and the selected channel -/
